@@ -847,6 +847,10 @@ type genCase struct {
 	DCtx  *hcl.EvalContext // for decoding
 	Feat  map[string]int
 	Note  string
+	// multi-step histories (multistep.go): the direct oracle runs them on every case; the
+	// cases of the multi-step stream (Multi) also carry them to the Coq checker
+	Plans []*mPlan
+	Multi bool
 }
 
 func (c *genCase) text() string {
